@@ -247,6 +247,9 @@ func (e *Engine) bind() error {
 				if err != nil {
 					return err
 				}
+				if err := e.checkExternSig(bc, key); err != nil {
+					return err
+				}
 				e.Externs[pkg.PkgPath+"|"+key] = bc
 				continue
 			}
@@ -390,7 +393,7 @@ func (e *Engine) bindClauses(bc *BoundContract) error {
 	for i := range fc.Clauses {
 		cl := &fc.Clauses[i]
 		switch cl.Kind {
-		case "requires", "ensures", "invariant", "decreases", "modifies", "fresh", "assert", "split", "appends", "appendsAll", "copies":
+		case "requires", "ensures", "invariant", "decreases", "modifies", "fresh", "assert", "split", "appends", "appendsAll", "copies", "mapStore", "mapDelete":
 			if ci >= len(calls) {
 				return fmt.Errorf("%s:%d: clause/statement mismatch", fc.File, cl.Line)
 			}
@@ -407,6 +410,10 @@ func (e *Engine) bindClauses(bc *BoundContract) error {
 				bc.Appends = append(bc.Appends, [2]ast.Expr{call.Args[0], call.Args[1]})
 			case "appendsAll":
 				bc.AppendsAll = append(bc.AppendsAll, [2]ast.Expr{call.Args[0], call.Args[1]})
+			case "mapStore":
+				bc.MapOps = append(bc.MapOps, []ast.Expr{call.Args[0], call.Args[1], call.Args[2]})
+			case "mapDelete":
+				bc.MapOps = append(bc.MapOps, []ast.Expr{call.Args[0], call.Args[1]})
 			case "copies":
 				bc.Copies = append(bc.Copies, [3]ast.Expr{call.Args[0], call.Args[1], call.Args[2]})
 			case "split":
@@ -782,4 +789,70 @@ func calleesOutside(fn *ssa.Function, allowed []string) []string {
 	visit(fn)
 	sort.Strings(bad)
 	return bad
+}
+
+// checkExternSig compares the declared signature of an assumed contract with the real callee.
+func (e *Engine) checkExternSig(bc *BoundContract, key string) error {
+	var real *types.Signature
+	fc := bc.FC
+	if fc.Recv != "" {
+		rt := bc.Params[0].Type()
+		ms := e.Prog.MethodSets.MethodSet(rt)
+		if it, ok := rt.Underlying().(*types.Interface); ok {
+			for i := 0; i < it.NumMethods(); i++ {
+				if it.Method(i).Name() == fc.Name {
+					real = it.Method(i).Type().(*types.Signature)
+				}
+			}
+		} else {
+			for i := 0; i < ms.Len(); i++ {
+				if ms.At(i).Obj().Name() == fc.Name {
+					real = ms.At(i).Type().(*types.Signature)
+				}
+			}
+		}
+	} else {
+		for _, fn := range ssautilAll(e.Prog) {
+			if fn.String() == key {
+				real = fn.Signature
+			}
+		}
+	}
+	if real == nil {
+		return nil
+	}
+	gen := bc.Sig
+	off := 0
+	if fc.Recv != "" {
+		off = 1
+	}
+	bad := real.Params().Len() != gen.Params().Len()-off || real.Results().Len() != gen.Results().Len()
+	if !bad {
+		for i := 0; i < real.Params().Len(); i++ {
+			if !types.Identical(real.Params().At(i).Type(), gen.Params().At(i+off).Type()) {
+				bad = true
+			}
+		}
+		for i := 0; i < real.Results().Len(); i++ {
+			if !types.Identical(real.Results().At(i).Type(), gen.Results().At(i).Type()) {
+				bad = true
+			}
+		}
+	}
+	if bad {
+		return fmt.Errorf("%s:%d: assumed contract %s does not match the callee's signature %s", fc.File, fc.Line, fc.Key(), real)
+	}
+	return nil
+}
+
+func ssautilAll(prog *ssa.Program) []*ssa.Function {
+	var out []*ssa.Function
+	for _, p := range prog.AllPackages() {
+		for _, m := range p.Members {
+			if f, ok := m.(*ssa.Function); ok {
+				out = append(out, f)
+			}
+		}
+	}
+	return out
 }
